@@ -60,6 +60,7 @@ def parseBldOp (o : String) : Option (Bool × List GcsBuilder.Op) :=
   | ["a", d] => (bytes? d).map fun d => (false, [GcsBuilder.Op.addEntry d])
   | ["h", h] => (bytes? h).map fun h => (false, [GcsBuilder.Op.setKey (h.take 16)])
   | ["A", ds] => (list? bytes? ds).map fun ds => (false, ds.map GcsBuilder.Op.addEntry)
+  | ["P", _] => some (false, [])   -- Preallocate: a capacity hint, no effect on the set
   -- With* constructors: SetKey . SetP . SetM (. Preallocate) on a fresh builder; defaults P = 19, M = 784931
   | ["w", ct, k, p, _n, m] => do
     let k ← bytes? k; let p ← nat? p; let m ← nat? m
